@@ -35,7 +35,11 @@ def predict (cmd : List String) : Option String :=
     match linCheckFinal h s0 (fun s => ApiCmd.sUsers s == post) with
     | some (_, s) => pure ("ok " ++ ApiCmd.sUsers s)
     | none =>
-      match linCheck h s0 with
+      -- rejected by the (untrusted, memoised) search: confirm with the exhaustive one, whose
+      -- rejection is conclusive (C11.rejection_is_conclusive); histories too long for that stay `D`
+      if h.length ≤ 10 && notLinearizable h s0 (fun s => ApiCmd.sUsers s == post) then
+        pure "V C11.no_linearization_reaches_the_observed_idle_state"
+      else match linCheck h s0 with
       | some (_, s) => pure ("linearizable-but-not-to-the-observed-final-state e.g. " ++ ApiCmd.sUsers s)
       | none => pure "not-linearizable"
   | ["lin.check", users, ops] => do
